@@ -30,12 +30,16 @@ def _rec_cls():
             super().__init__(method=method, cost_matrix=cost_matrix, missing_label=missing_label, random_state=random_state)
             self.utility_scale, self.utility_shift = utility_scale, utility_shift
 
-        def query(self, X, y, *a, **kw):
+        def query(self, X, y, *a, X_eval=None, **kw):
+            # X_eval: an evaluation set as the expected-model-change / variance-reduction strategies take it - NOT aligned with the rows
+            # of X, even when it happens to have as many rows
+            kw_eval = X_eval
             out = super().query(X, y, *a, **kw)
             if isinstance(out, tuple) and (self.utility_scale, self.utility_shift) != (1.0, 0.0):
                 out = (out[0], out[1] * self.utility_scale + self.utility_shift)
             RECORD.append({"X": np.array(X), "y": np.array(y), "candidates": kw.get("candidates"), "batch_size": kw.get("batch_size"),
-                           "sample_weight": None if kw.get("sample_weight") is None else np.array(kw.get("sample_weight"), dtype=float), "out": out})
+                           "sample_weight": None if kw.get("sample_weight") is None else np.array(kw.get("sample_weight"), dtype=float),
+                           "X_eval": None if kw_eval is None else np.array(kw_eval), "out": out})
             return out
     return Rec
 
@@ -152,13 +156,28 @@ def run(ctx):
             # every other case passes per-sample weights (weight of sample i = i + 1): they refer to the rows of X, so the wrapped
             # strategy must receive, for every row it is handed, the weight of that very sample
             swkw = {"sample_weight": np.arange(1, n + 1, dtype=float)} if h % 2 else {}
+            X_eval = None
+            if h % 3 == 0:
+                # further query arguments are the wrapped strategy's business: an evaluation set must arrive as it was passed, also
+                # when it has exactly as many rows as X
+                X_eval = X + 0.125 if h % 2 else rng.normal(size=(int(rng.integers(1, 2 * n)), X.shape[1]))
+                swkw = dict(swkw, X_eval=X_eval)
             idx, ut = qs.query(X=X, y=y, candidates=cand, batch_size=bs, return_utilities=True, clf=clf, **swkw)
         except Exception as e:
             ctx.violation("SubSamplingWrapper", "exception", repr(e), {"y": [None if np.isnan(v) else v for v in y], "cand": cs, "mc": mc, "excl": excl, "bs": bs, "sample_weight": bool(h % 2)})
             continue
         ctx.count("SubSamplingWrapper")
         rec = RECORD[-1]
-        if swkw:
+        if X_eval is not None:
+            ctx.count("SubSamplingWrapper_extra_argument")
+            if rec["X_eval"] is None or rec["X_eval"].shape != X_eval.shape or not np.array_equal(rec["X_eval"], X_eval):
+                ctx.violation("SubSamplingWrapper", "query_argument_altered",
+                              f"X_eval of shape {X_eval.shape} passed to the wrapper, the wrapped strategy received shape {None if rec['X_eval'] is None else rec['X_eval'].shape}",
+                              {"X": X.tolist(), "y": [None if np.isnan(v) else v for v in y], "candidates": None if cand is None else cs, "max_candidates": mc,
+                               "exclude_non_subsample": excl, "batch_size": bs, "seed": seed, "X_eval": X_eval.tolist()},
+                              what="SubSamplingWrapper: a further query argument (evaluation set) does not reach the wrapped strategy as it was passed")
+                continue
+        if "sample_weight" in swkw:
             ctx.count("SubSamplingWrapper_sample_weight")
             rsw, rX = rec["sample_weight"], np.asarray(rec["X"], dtype=float)
             exp_sw = rX[:, 0] * 4.0 + 1.0      # X[:, 0] = index / 4 identifies the sample of every row
